@@ -31,8 +31,8 @@ ASSUMPTIONS = ['single-alternative graders (fresh, no wrong_msg) define what an 
                'string, numerical, formula and matrix kinds hand-written match tables anchor them absolutely',
                'among alternatives tied in grade AND message length either message is accepted',
                'RNG owned by the explorer with default answers (formula kinds), so full and single graders see the same samples',
-               'IntervalGrader bracket alternatives: among bracket alternatives tied at the best credit any of their messages is '
-               'accepted (the library reports the first listed, see PENDING-FINDING in IntervalBrackets)']
+               'IntervalGrader bracket alternatives: among bracket alternatives tied at the best credit the longest message is '
+               'required, as for any item']
 
 EPS = 1e-12
 OMIT = None          # wrong_msg not passed to the constructor at all (option left at its default)
@@ -67,6 +67,7 @@ def pool_b(e_cat, e_dog, e_emu):
 
 POOLS = {'A': pool_for, 'B': pool_b}
 
+# the refused (raising) input of a kind comes SECOND: every grader goes on grading after a call that raised
 KINDS = {
     'string': dict(make=lambda **kw: StringGrader(**kw), expects=('cat', 'dog', 'emu'),
                    inputs=['cat', 'dog', 'emu', 'none', ' Cat']),
@@ -75,17 +76,17 @@ KINDS = {
                                                        ('q', 'x'): (0.25, 'tm'), ('r', 'x'): (0, 'zm')}, **kw),
                   expects=('p', 'q', 'r'), inputs=['x', 'y', 'z', 'w']),
     'formula': dict(make=lambda **kw: FormulaGrader(variables=['x'], **kw), expects=('x+1', '2*x', 'x^2'),
-                    inputs=['1+x', 'x*2', 'x*x', 'x+7', 'x+']),
+                    inputs=['1+x', 'x+', 'x*2', 'x*x', 'x+7']),
     'numerical': dict(make=lambda **kw: NumericalGrader(**kw), expects=('2', '3', '5'),
-                      inputs=['2', '3.0', '5', '7', '1/0']),
+                      inputs=['2', '1/0', '3.0', '5', '7']),
     'matrix': dict(make=lambda **kw: MatrixGrader(**kw), expects=('[1,2]', '[3,4]', '[5,6]'),
-                   inputs=['[1,2]', '[3,4]', '[5,6]', '[0,0]', '[1,2,3]']),
+                   inputs=['[1,2]', '[1,2,3]', '[3,4]', '[5,6]', '[0,0]']),
     'singlelist': dict(make=lambda **kw: SingleListGrader(subgrader=StringGrader(), **kw),
                        expects=('a,b', 'c,d', 'e,f'), inputs=['b,a', 'c,d', 'e,f', 'z,z', 'a,z', 'c']),
     # alternatives that mention different numbered-variable instances (each alternative needs its own samples)
     'formula_numbered': dict(make=lambda **kw: FormulaGrader(variables=['x'], numbered_vars=['a'], **kw),
                              expects=('a_{1}+x', 'a_{1}+a_{2}', 'a_{3}*x'),
-                             inputs=['x+a_{1}', 'a_{2}+a_{1}', 'x*a_{3}', 'a_{1}', 'a_{4}', 'a_{1}+']),
+                             inputs=['x+a_{1}', 'a_{1}+', 'a_{2}+a_{1}', 'x*a_{3}', 'a_{1}', 'a_{4}']),
     # members of one expect tuple that earn DIFFERENT partial credit for the same input
     'singlelist3': dict(make=lambda **kw: SingleListGrader(subgrader=StringGrader(), **kw),
                         expects=('a,b,c', 'a,b,d', 'x,y,z'), inputs=['a,b,c', 'a,b,d', 'x,y,z', 'a,b,z', 'a,q,q', 'q,q,q']),
@@ -94,12 +95,33 @@ KINDS = {
     # suppressed matrix errors come back as zero-grade results: wrong_msg applies to them
     'matrix_suppressed': dict(make=lambda **kw: MatrixGrader(suppress_matrix_messages=True, **kw),
                               expects=('[1,2]', '[3,4]', '[5,6]'), inputs=['[1,2]', '[3,4]', '[1,2,3]', '[1,2]+1', '[0,0]', '[[1,2]]']),
+    # alternatives of DIFFERENT shapes: a shape mismatch with one alternative must not mask the match with another one.
+    # (suppressed: the mismatch is a silent zero; is_raised False: the mismatch is a zero WITH a message made by the comparison,
+    # so wrong_msg stays away and the longest of those messages is shown when nothing matches)
+    # PENDING-FINDING (not enumerated): with the default configuration the mismatch RAISES, so MatrixGrader(answers=('[1,2]',
+    # '[1,2,3]'))(None, '[1,2,3]') is an error although the input equals the second alternative; the decomposition oracle
+    # accepts an error whenever one alternative alone gives an error, so that configuration would be silent anyway.
+    'matrix_shapes_suppressed': dict(make=lambda **kw: MatrixGrader(suppress_matrix_messages=True, max_array_dim=2, **kw),
+                                     expects=('[1,2]', '[1,2,3]', '[[1,2],[3,4]]'),
+                                     inputs=['[1,2]', '[1,2,3]', '[[1,2],[3,4]]', '[0,0]', '[1,2,3,4]', '7']),
+    'matrix_shapes_msg': dict(make=lambda **kw: MatrixGrader(answer_shape_mismatch={'is_raised': False, 'msg_detail': 'shape'},
+                                                             max_array_dim=2, **kw),
+                              expects=('[1,2]', '[1,2,3]', '[[1,2],[3,4]]'),
+                              inputs=['[1,2]', '[1,2,3]', '[[1,2],[3,4]]', '[0,0]', '[1,2,3,4]', '7']),
     # a falsy-but-valid expect value: the alternative '' is matched by the empty and the blank input
     'string_blank': dict(make=lambda **kw: StringGrader(**kw), expects=('', 'dog', 'emu'),
                          inputs=['', ' ', 'dog', 'emu', 'none']),
+    # list-level alternatives whose ITEMS carry alternatives of their own (expect values given as lists, not strings)
+    'singlelist_items': dict(make=lambda **kw: SingleListGrader(subgrader=StringGrader(), **kw),
+                             expects=(['a', ('b', {'expect': 'B', 'grade_decimal': 0.5, 'msg': 'caps'})], ['c', 'd'],
+                                      [('e', 'a'), {'expect': 'f', 'grade_decimal': 0, 'msg': 'no f'}]),
+                             inputs=['b,a', 'a,B', 'c,d', 'e,f', 'a,f', 'z,z', 'B']),
+    # generic messages at BOTH levels: the items' wrong_msg is a message of the list, so the list's own one stays away
+    'singlelist_subwrong': dict(make=lambda **kw: SingleListGrader(subgrader=StringGrader(wrong_msg='S'), **kw),
+                                expects=('a,b', 'c,d', 'e,f'), inputs=['b,a', 'c,d', 'z,z', 'a,z', 'c']),
     # a SUBCLASS of SingleListGrader with its own check_response: list-level alternatives, halves earned separately
     'interval': dict(make=lambda **kw: IntervalGrader(**kw), expects=('[1,2]', '(1,2)', '[3,4)'),
-                     inputs=['[1,2]', '(1,2)', '[3,4)', '[1,2)', '(1,4)', '[0,0]', '{1,2}']),
+                     inputs=['[1,2]', '{1,2}', '(1,2)', '[3,4)', '[1,2)', '(1,4)', '[0,0]']),
 }
 
 # hand-written truth tables (independent of the library): which input is a match for which expect value; which inputs are refused
@@ -129,6 +151,10 @@ def run(g, inp, listform=False, expect=None):
     return out
 
 
+def rawlen(msg):
+    return len(msg.replace('<br/>\n', '\n'))
+
+
 def judge(full, singles, wrong_msg, where, tag):
     """full: ('ok', result) of the grader with all alternatives; singles: list of single-alternative outcomes"""
     if any(s[0] != 'ok' for s in singles):
@@ -148,8 +174,9 @@ def judge(full, singles, wrong_msg, where, tag):
         return 'grade', viol(tag + ':not-the-maximum', '%s: grade %r but the best single alternative earns %r (singles %r)'
                              % (where, res['grade_decimal'], best, grades), best, res)
     top = [s[1] for s in singles if abs(s[1]['grade_decimal'] - best) <= EPS]
-    maxlen = max(len(t['msg']) for t in top)
-    allowed = set(t['msg'] for t in top if len(t['msg']) == maxlen)
+    # lengths are those of the messages as selected, i.e. before the final newline -> '<br/>\n' formatting
+    maxlen = max(rawlen(t['msg']) for t in top)
+    allowed = set(t['msg'] for t in top if rawlen(t['msg']) == maxlen)
     if allowed == {''} and best == 0:
         allowed = {wrong_msg}
     if res['msg'] not in allowed:
@@ -162,7 +189,8 @@ def judge(full, singles, wrong_msg, where, tag):
     return ('g=%g%s' % (best, ':wrong_msg' if (best == 0 and wrong_msg and res['msg'] == wrong_msg) else '')), None
 
 
-COMMA_KINDS = ('matrix', 'singlelist', 'singlelist3', 'matrix_entry', 'matrix_suppressed', 'interval')
+COMMA_KINDS = ('matrix', 'singlelist', 'singlelist3', 'matrix_entry', 'matrix_suppressed', 'interval', 'singlelist_items',
+               'singlelist_subwrong', 'matrix_shapes_suppressed', 'matrix_shapes_msg')
 
 
 class Alternatives(Family):
@@ -298,13 +326,15 @@ class Alternatives(Family):
 class LongAlternatives(Alternatives):
     """tuples of 5 and 6 alternatives (the statement's bound is 6)"""
 
-    def __init__(self, kind, all_orders_in_thorough=False):
+    def __init__(self, kind, all_orders_in_thorough=False, both_directions=True):
         Alternatives.__init__(self, kind)
         self.all_orders = all_orders_in_thorough
+        self.both = both_directions
         self.name = 'alts_%s_5to6' % kind
         self.rule = ('%s grader holding 5 or 6 of the 8 pool-A alternatives: every subset, listed in every rotation of the '
-                     'ascending and of the descending order (each alternative at each position)%s x wrong_msg x inputs; same '
-                     'decomposition oracle' % (kind, ' [thorough: EVERY order]' if all_orders_in_thorough else ''))
+                     'ascending %sorder (each alternative at each position)%s x wrong_msg x inputs; same '
+                     'decomposition oracle' % (kind, 'and of the descending ' if both_directions else '',
+                                               ' [thorough: EVERY order]' if all_orders_in_thorough else ''))
 
     def cases(self, tier):
         for n in (5, 6):
@@ -313,7 +343,7 @@ class LongAlternatives(Alternatives):
                     yield tup
                 continue
             for comb in itertools.combinations(range(8), n):
-                for seq in (comb, comb[::-1]):
+                for seq in ((comb, comb[::-1]) if (self.both or tier != 'quick') else (comb,)):
                     for r in range(n):
                         yield seq[r:] + seq[:r]
 
@@ -500,11 +530,9 @@ class IntervalBrackets(Family):
                 if lower == '1' and cands:
                     low = max(c for c, m in cands)
                     tied = [m for c, m in cands if c == low]
-                    # PENDING-FINDING: the statement asks for the LONGEST message among alternatives tied at the best credit
-                    # (as ItemGrader.check does); IntervalGrader.grade_bracket reports the FIRST LISTED one, so the message
-                    # depends on the listing order.  Until that is decided any of the tied messages is accepted here:
-                    #     msgs = set(m for m in tied if len(m) == max(len(t) for t in tied))
-                    msgs = set(tied)
+                    # the LONGEST message among alternatives tied at the best credit (as ItemGrader.check does); this case found
+                    # a genuine defect (IntervalGrader.grade_bracket reported the first listed one; repaired)
+                    msgs = set(m for m in tied if len(m) == max(len(t) for t in tied))
                     if len(set(tied)) > 1:
                         nontrivial = True
                 up = 1 if (upper == '2' and closing == ']') else 0
@@ -529,13 +557,16 @@ class CreditScaling(Family):
     """anchors the decomposition oracle: what ONE alternative earns is its own credit times what its bare expect value earns"""
     timeout = 60.0
 
-    def __init__(self, kind):
+    CREDITS = (0, 0.25, 1, 1.0 / 3, 0.99996, 0.00004)
+
+    def __init__(self, kind, credits=None):
         self.kind = kind
+        self.credits = self.CREDITS if credits is None else credits
         self.name = 'single_alternative_credit_%s' % kind
         self.rule = ('%s grader holding ONE alternative {expect, grade_decimal c, msg}: for every pool alternative (tuple-valued '
-                     'expects member by member), credits c in {the pool\'s, 0, 0.25, 1, 1/3, 0.99996, 0.00004} and every input, the grade is c times the '
+                     'expects member by member), credits c in {the pool\'s, %s} and every input, the grade is c times the '
                      'grade of the same grader holding the bare expect value, ok follows the grade, and a zero result never '
-                     'carries full marks' % kind)
+                     'carries full marks' % (kind, ', '.join('%g' % c for c in self.credits)))
 
     def setup(self, tier):
         k = KINDS[self.kind]
@@ -547,7 +578,7 @@ class CreditScaling(Family):
             if not isinstance(alt, dict):
                 alt = {'expect': alt, 'grade_decimal': 1, 'msg': ''}
             for m in (alt['expect'] if isinstance(alt['expect'], tuple) else (alt['expect'],)):
-                for c in (alt['grade_decimal'], 0, 0.25, 1, 1.0 / 3, 0.99996, 0.00004):
+                for c in (alt['grade_decimal'],) + tuple(self.credits):
                     cand = (m, c, alt['msg'])
                     if cand not in self.members:
                         self.members.append(cand)
@@ -593,14 +624,19 @@ def families(tier):
                                       'matrix_entry', 'matrix_suppressed', 'formula_numbered')]
     fams += [Alternatives(k, 'ListGrader') for k in ('string', 'formula', 'singlelist')]
     fams += [Alternatives(k, 'SingleListGrader') for k in ('string', 'numerical')]
-    fams += [CreditScaling(k) for k in KINDS]
+    fams += [CreditScaling(k) for k in ('string', 'table', 'formula', 'numerical', 'matrix', 'singlelist', 'formula_numbered',
+                                        'singlelist3', 'matrix_entry', 'matrix_suppressed', 'string_blank')]
+    fams += [CreditScaling(k, credits=(0, 0.25) if tier == 'quick' else None) for k in ('interval', 'singlelist_items')]
     # ---- falsy expect value; a subclass of SingleListGrader
-    fams += [Alternatives('string_blank'), Alternatives('interval', maxk=(2, 3))]
+    fams += [Alternatives('string_blank', maxk=(2, 4)), Alternatives('interval', maxk=(2, 3))]
+    # ---- alternatives at two levels of one list grader; generic messages at two levels
+    fams += [Alternatives('singlelist_items', maxk=(2, 3)), Alternatives('singlelist_subwrong', maxk=(2, 3))]
+    # ---- alternatives of different shapes
+    fams += [Alternatives('matrix_shapes_suppressed', maxk=(2, 3)), Alternatives('matrix_shapes_msg', maxk=(2, 3))]
     # ---- pool B (defaults, near-equal credits, matched zero without message, tiny credit, 3-tuple, non-ASCII, '' input, no wrong_msg)
     fams += [Alternatives(k, pool='B') for k in ('string', 'table')]
     fams += [Alternatives(k, pool='B', maxk=(2, 3)) for k in ('numerical', 'formula', 'matrix', 'singlelist3', 'string_blank')]
     fams += [Alternatives('string', 'ListGrader', pool='B', maxk=(2, 3)),
-             Alternatives('formula', 'ListGrader', pool='B', maxk=(2, 3)),
              Alternatives('string', 'SingleListGrader', pool='B', maxk=(2, 3)),
              Alternatives('numerical', 'SingleListGrader', pool='B', maxk=(2, 3))]
     # ---- other ways of nesting the item grader in a list
@@ -609,9 +645,11 @@ def families(tier):
         fams += [Alternatives(k, pool='B', maxk=(2, 3)) for k in ('matrix_suppressed', 'formula_numbered', 'interval', 'singlelist',
                                                                  'matrix_entry')]
         fams += [Alternatives('numerical', 'ListGrader', maxk=(2, 3)), Alternatives('matrix', 'ListGrader', maxk=(2, 3)),
-                 Alternatives('singlelist', 'ListGrader', pool='B', maxk=(2, 3))]
+                 Alternatives('singlelist', 'ListGrader', pool='B', maxk=(2, 3)),
+                 Alternatives('formula', 'ListGrader', pool='B', maxk=(2, 3))]
     # ---- 5 and 6 alternatives
-    fams += [LongAlternatives('string', all_orders_in_thorough=True), LongAlternatives('table', all_orders_in_thorough=True)]
+    fams += [LongAlternatives('string', all_orders_in_thorough=True, both_directions=False),
+             LongAlternatives('table', all_orders_in_thorough=True)]
     if tier != 'quick':
         fams += [LongAlternatives(k) for k in ('numerical', 'singlelist3', 'formula')]
     # ---- absolute anchors, unwrapped answers, bracket alternatives
